@@ -61,6 +61,20 @@ func NewRequestContext(ctx context.Context, req *envoy_auth.CheckRequest) *Reque
 		}
 	}
 
+	// envoy sends the request target as it appears in the first line of the HTTP request
+	// in the path attribute, that is including the query string. The query attribute is
+	// documented to be always empty and to exist for compatibility reasons only.
+	path := req.GetAttributes().GetRequest().GetHttp().GetPath()
+	query := req.GetAttributes().GetRequest().GetHttp().GetQuery()
+
+	if reqPath, reqQuery, found := strings.Cut(path, "?"); found {
+		path = reqPath
+
+		if len(query) == 0 {
+			query = reqQuery
+		}
+	}
+
 	return &RequestContext{
 		ctx:        ctx,
 		ips:        clientIPs,
@@ -69,8 +83,8 @@ func NewRequestContext(ctx context.Context, req *envoy_auth.CheckRequest) *Reque
 		reqURL: &url.URL{
 			Scheme:   req.GetAttributes().GetRequest().GetHttp().GetScheme(),
 			Host:     req.GetAttributes().GetRequest().GetHttp().GetHost(),
-			Path:     req.GetAttributes().GetRequest().GetHttp().GetPath(),
-			RawQuery: req.GetAttributes().GetRequest().GetHttp().GetQuery(),
+			Path:     path,
+			RawQuery: query,
 			Fragment: req.GetAttributes().GetRequest().GetHttp().GetFragment(),
 		},
 		reqBody:         req.GetAttributes().GetRequest().GetHttp().GetBody(),
